@@ -1,4 +1,5 @@
 import RsMatterVerif.Lemmas.Transport
+import RsMatterVerif.Model.TxGuard
 /-!
 # C15 — a nonce is never used for two different messages
 
@@ -16,6 +17,14 @@ Theorems over `Model/Transport.lean`:
    exchange has that (id, role) (`exchUniq_postRecv`); hence (id, role) stays unique
    among the live exchanges of a session under every receive, initiate and drop step
    (`exchUniq_postRecv`, `initiate_keeps_uniq`, `exchUniq_removeExch`).
+
+4. payloads: a retransmission is produced by running the message builder again; since the repo fix
+   `C15-retransmission-rebuilt-differs` the transport refuses to send a rebuilt message whose digest
+   differs from the first transmission's (`Model/TxGuard.lean`): whatever the builder does, everything
+   that reaches the wire for one message carries one counter and one digest
+   (`guard_one_payload_per_counter`), an idempotent builder is never refused
+   (`guard_idempotent_never_refused`), a builder that changes its output ends the send loop with an
+   error before the changed message is sent (`guard_refuses_first_difference`).
 
 The model's counters are unbounded naturals; the Rust `u32` send counter starts below 2^28 and the
 correspondence holds while it stays below 2^32 (stated in `docs/C15.md`).
@@ -526,5 +535,79 @@ example :
     let s : Sess := { uid := 0, ctr := 0, exchs := [some { id := 0x1234, role := .io }] }
     let t : Table := { nextExch := 0x1234, sessions := [s] }
     t.nextExchId.2 = 0x1235 := by decide
+
+/-! ## 4. The payload of a retransmission (`TxMessage::complete`, repo fix `C15-retransmission-rebuilt-differs`) -/
+
+open TxGuard in
+theorem sendLoop_some (c f : Nat) (ds : List Nat) :
+    ∀ x ∈ (sendLoop { ctr := c, digest := some f } ds).1, x = (c, f) := by
+  induction ds with
+  | nil => intro x hx; simp [sendLoop] at hx
+  | cons d ds ih =>
+    intro x hx
+    simp only [sendLoop, Entry.check] at hx
+    by_cases hfd : f = d
+    · subst hfd
+      simp only [beq_self_eq_true, ↓reduceIte, List.mem_cons] at hx
+      rcases hx with rfl | hx
+      · rfl
+      · exact ih x hx
+    · have : (f == d) = false := by simpa using hfd
+      simp [this] at hx
+
+open TxGuard in
+/-- **One payload per counter, whatever the builder does**: for every sequence of builder outputs
+(first transmission and any number of rebuilds for retransmissions, idempotent or not), everything
+`TxMessage::complete` hands to the transport for this message carries the message's counter and the
+digest of the FIRST transmission. -/
+theorem guard_one_payload_per_counter (c : Nat) (ds : List Nat) (x y : Nat × Nat)
+    (hx : x ∈ (sendLoop { ctr := c } ds).1) (hy : y ∈ (sendLoop { ctr := c } ds).1) : x = y ∧ x.1 = c := by
+  cases ds with
+  | nil => simp [sendLoop] at hx
+  | cons d ds =>
+    have hall : ∀ z ∈ (sendLoop { ctr := c } (d :: ds)).1, z = (c, d) := by
+      intro z hz
+      simp only [sendLoop, Entry.check, ↓reduceIte, List.mem_cons] at hz
+      rcases hz with rfl | hz
+      · rfl
+      · exact sendLoop_some c d ds z hz
+    rw [hall x hx, hall y hy]
+    exact ⟨rfl, rfl⟩
+
+open TxGuard in
+/-- an idempotent builder (every rebuild has the digest of the first output) is never refused and
+every rebuild is sent -/
+theorem guard_idempotent_never_refused (c d n : Nat) :
+    sendLoop { ctr := c } (List.replicate (n + 1) d) = (List.replicate (n + 1) (c, d), false) := by
+  have h : ∀ n, sendLoop { ctr := c, digest := some d } (List.replicate n d) = (List.replicate n (c, d), false) := by
+    intro n
+    induction n with
+    | zero => rfl
+    | succ n ih =>
+      simp only [List.replicate_succ, sendLoop, Entry.check, beq_self_eq_true, ↓reduceIte]
+      rw [ih]
+  simp only [List.replicate_succ, sendLoop, Entry.check, ↓reduceIte]
+  rw [h n]
+
+open TxGuard in
+/-- a builder whose `k+2`-th output is the first one that differs: the `k+1` identical messages are
+sent, the differing one is not, the send loop ends with the refusal (nothing after it is sent either) -/
+theorem guard_refuses_first_difference (c d d' k : Nat) (rest : List Nat) (hne : d ≠ d') :
+    sendLoop { ctr := c } (List.replicate (k + 1) d ++ d' :: rest) = (List.replicate (k + 1) (c, d), true) := by
+  have h : ∀ k, sendLoop { ctr := c, digest := some d } (List.replicate k d ++ d' :: rest) = (List.replicate k (c, d), true) := by
+    intro k
+    induction k with
+    | zero =>
+      have : (d == d') = false := by simpa using hne
+      simp [sendLoop, Entry.check, this]
+    | succ k ih =>
+      simp only [List.replicate_succ, List.cons_append, sendLoop, Entry.check, beq_self_eq_true, ↓reduceIte]
+      rw [ih]
+  simp only [List.replicate_succ, List.cons_append, sendLoop, Entry.check, ↓reduceIte]
+  rw [h k]
+
+/-- non-vacuity: first transmission, one identical retransmission, then the builder produces something
+else (e.g. Sigma2 after the node's operational certificate was replaced): two messages sent, refusal -/
+example : TxGuard.sendLoop { ctr := 4711 } [9, 9, 8, 9] = ([(4711, 9), (4711, 9)], true) := by decide
 
 end C15
